@@ -39,6 +39,8 @@ type caseT struct {
 	force  bool // forceUploadTreesAndDirectories
 	pre    *node
 	lazy   bool // input root merged lazily from the CAS (as the worker does)
+	native bool // naive build directory on the local file system instead
+	exec   bool // through the real localBuildExecutor with a fake runner (exec_test.go)
 	prod   *node
 }
 
@@ -266,6 +268,8 @@ func preEntries(n *node, prefix []string, out *[]entry) {
 			*out = append(*out, entry{Path: p, Kind: "file", Exec: c.exec, Cid: fmt.Sprintf("c%d", c.content)})
 		case "symlink":
 			*out = append(*out, entry{Path: p, Kind: "symlink", Target: c.target})
+		case "hardlink", "absent":
+			panic("input roots hold files, directories and symlinks only")
 		default:
 			*out = append(*out, entry{Path: p, Kind: "special"})
 		}
@@ -286,7 +290,7 @@ func runCase(tr *common.Trace, id int, c *caseT) {
 		prodDesc = c.prod.describe()
 	}
 	tr.Emit(common.Ev{"ev": "reset", "case": id, "gen": c.gen, "wd": mkPath(c.wd), "paths": paths,
-		"format": formatName(c.format), "force": c.force, "lazy": c.lazy, "pre": pre, "prod": prodDesc})
+		"format": formatName(c.format), "force": c.force, "lazy": c.lazy, "native": c.native, "executor": c.exec, "pre": pre, "prod": prodDesc})
 	defer func() {
 		if r := recover(); r != nil {
 			if he, ok := r.(harnessError); ok {
@@ -295,6 +299,11 @@ func runCase(tr *common.Trace, id int, c *caseT) {
 			tr.Emit(common.Ev{"ev": "panic", "msg": fmt.Sprint(r)})
 		}
 	}()
+
+	if c.exec {
+		runCaseExecutor(tr, c)
+		return
+	}
 
 	command := c.command()
 	oh, err := builder.NewOutputHierarchy(command)
@@ -307,7 +316,7 @@ func runCase(tr *common.Trace, id int, c *caseT) {
 		// Looking at a lazily loaded input root loads it. Observe the
 		// state after CreateParentDirectories on a twin environment,
 		// so that the upload below sees directories nobody touched.
-		twin := mustEnv(c.pre, true)
+		twin := mustEnv(c)
 		oh2, err2 := builder.NewOutputHierarchy(c.command())
 		if err2 != nil {
 			panic(harnessError{fmt.Errorf("NewOutputHierarchy is not deterministic: %v", err2)})
@@ -320,7 +329,7 @@ func runCase(tr *common.Trace, id int, c *caseT) {
 			return
 		}
 	}
-	e := mustEnv(c.pre, c.lazy)
+	e := mustEnv(c)
 	defer e.release()
 	perr := oh.CreateParentDirectories(e.inputRoot)
 	if !c.lazy {
@@ -335,7 +344,7 @@ func runCase(tr *common.Trace, id int, c *caseT) {
 
 	// The command runs.
 	if c.prod != nil {
-		if err := e.apply(e.inputVFS, c.prod); err != nil {
+		if err := e.produce(c.prod); err != nil {
 			panic(harnessError{fmt.Errorf("cannot produce tree %s: %w", c.prod.describe(), err)})
 		}
 	}
@@ -352,8 +361,14 @@ func runCase(tr *common.Trace, id int, c *caseT) {
 
 type harnessError struct{ err error }
 
-func mustEnv(pre *node, lazy bool) *env {
-	e, err := newEnv(pre, lazy)
+func mustEnv(c *caseT) *env {
+	var e *env
+	var err error
+	if c.native {
+		e, err = newNativeEnv(c.pre)
+	} else {
+		e, err = newEnv(c.pre, c.lazy)
+	}
 	if err != nil {
 		panic(harnessError{fmt.Errorf("cannot build environment: %w", err)})
 	}
@@ -367,4 +382,3 @@ func mustObserve(e *env) []entry {
 	}
 	return t
 }
-
